@@ -55,6 +55,39 @@ def concurrent_slow(variant, nconns=4, nreq=12):
     return {"handler": "rec", "nconns": nconns, "concurrent": True, "slowwrite": True, "steps": steps}
 
 
+def concurrent_big(variant, nconns=3, nreq=4):
+    """The same with replies beyond 64 KiB (where a serializer may switch to a kept or pooled buffer)."""
+    steps = []
+    for c in range(nconns):
+        reqs = []
+        for i in range(nreq):
+            size = [65537, 70000, 131072, 66000, 99999][(i + c + variant) % 5]
+            raw = tok("raw")
+            raw["raw"] = [65 + (3 * c + i + variant) % 26] * size
+            reqs.append({"cls": "conc", "name": "ECHO", "args": [raw]})
+            reqs.append({"cls": "conc", "name": "PING", "args": []})
+        steps.append({"c": c, "op": "send", "chunking": "perreq", "reqs": reqs})
+    return {"handler": "rec", "nconns": nconns, "concurrent": True, "slowwrite": True, "steps": steps}
+
+
+def concurrent_config(variant, nreq=150):
+    """Connections that read several configuration values at once while others set them, and a witness that only wants its
+    ECHOs answered: none of them may be kept waiting for ever (the harness's watchdog reports a connection that stalls)."""
+    S = lambda x: tok("str", x)
+    steps = []
+    for c in range(5):
+        reqs = []
+        for i in range(nreq):
+            if c < 2:
+                reqs.append({"cls": "conc", "name": "CONFIG", "args": [tok("word", w="SET"), S(["c:save", "c:appendonly"][(i + c) % 2]), S("v%d" % ((i + variant) % 3 + 1))]})
+            elif c < 4:
+                reqs.append({"cls": "conc", "name": "CONFIG", "args": [tok("word", w="GET"), S("c:save"), S("c:appendonly"), S("c:save")] + ([S("w:abc")] if i % 5 == 0 else [])})
+            else:
+                reqs.append({"cls": "conc", "name": "ECHO", "args": [S("t%d" % (i % 4 + 1))]})
+        steps.append({"c": c, "op": "send", "chunking": "perreq", "reqs": reqs})
+    return {"handler": "rec", "nconns": 5, "concurrent": True, "steps": steps}
+
+
 class IdleProbe:
     """Runs `vharness idle` beside a check (it mostly sleeps) and has TraceRESP!IdleOK judge what it measured."""
     def __init__(self, ctx, idle_ms):
